@@ -14,6 +14,7 @@ import Serif.Drive.C14
 import Serif.Drive.C15
 import Serif.Drive.C19
 import Serif.Drive.C20
+import Serif.Drive.C17
 open Lean Serif.Wire
 
 def dispatch (p fam : String) (c impl : Json) : P Json :=
@@ -26,6 +27,7 @@ def dispatch (p fam : String) (c impl : Json) : P Json :=
   | "C15" => Serif.Drive.C15.handle fam c impl
   | "C19" => Serif.Drive.C19.handle fam c impl
   | "C20" => Serif.Drive.C20.handle fam c impl
+  | "C17" => Serif.Drive.C17.handle fam c impl
   | _ => .error s!"unknown property {p}"
 
 def answer (line : String) : Json :=
